@@ -430,3 +430,139 @@ def first_mismatch(c):
         if e != g:
             return (list(t), e, g)
     return None
+
+
+# =====================================================================================================
+# C21 proper
+# =====================================================================================================
+from vf.gen import intprog as G  # noqa: E402
+
+PER_CLASS = 60
+
+
+def to_cases(methods, tag, rng, tcache):
+    """wrap compiled generator methods into pipeline cases (class p/<tag><n>, PER_CLASS methods each); method names are made unique"""
+    cases = []
+    for i, m in enumerate(methods):
+        types = [t for _, t in m.params]
+        k = "".join(types)
+        if k not in tcache:
+            tcache[k] = G.tuples_for(types, rng)
+        m.name = "m%d" % i
+        c = Case("p/%s%d" % (tag, i // PER_CLASS), m.name, m.ret, types, m.registers, m.ins, m.units, tcache[k], meta=m)
+        cases.append(c)
+    return cases
+
+
+def symptom_of(ctx, c):
+    """-> None (passes / not decidable) or (symptom, detail dict)"""
+    if c.expected is None:
+        return None
+    if c.decomp_error is not None:
+        return ("decompile-raises-" + re.sub(r"[^A-Za-z]", "", c.decomp_error.split(":")[0])[:40], {"error": c.decomp_error})
+    if c.src is not None and not c.in_class_source:
+        return None
+    if c.diags:
+        return (diag_class(c.diags[0][0]), {"diagnostics": [d[0] + " | " + d[1] for d in c.diags[:4]]})
+    if c.jvm is None:
+        return None
+    if isinstance(c.jvm, str):
+        if c.jvm.startswith("?"):
+            return ("jvm-does-not-terminate", {"note": "the compiled decompiler output did not return within the per-call deadline; the interpreter needed %s steps at most" % "few"})
+        ctx.inconclusive("JVM could not call %s: %s" % (c.key, c.jvm[:200]))
+        return None
+    mm = first_mismatch(c)
+    if mm is None:
+        return None
+    t, e, a = mm
+    if e.startswith("!") and not a.startswith("!"):
+        s = "exception-lost"
+    elif a.startswith("!") and not e.startswith("!"):
+        s = "exception-spurious"
+    else:
+        s = "wrong-value"
+    nbad = sum(1 for x, y in zip(c.expected, c.jvm) if x != y)
+    return (s, {"args": t, "expected": e, "actual": a, "mismatching_tuples": "%d of %d" % (nbad, len(c.tuples))})
+
+
+def subject_mechanism(m, symptom, src):
+    """mechanism name for a single-subject method (P0/P1): derived from the subject feature and the symptom, never from values"""
+    kind, base = m.subject.split(":", 1)
+    src = src or ""
+    if kind == "op" and base.startswith("ushr") and symptom == "wrong-value" and ">>>" not in src:
+        return base + "-printed-as-shr"
+    if kind == "const" and symptom == "javac-integer-number-too-large":
+        return base + "-literal-without-L"
+    if kind == "dead":
+        return "unused-result-%s-%s" % (base, symptom)
+    if kind == "cmp":
+        return "%s-%s" % (base, symptom)
+    return "%s-%s" % (base, symptom)
+
+
+def judge(ctx, cases, label):
+    """-> list of (case, symptom, detail) for failing cases; counts evaluations and signatures"""
+    bad = []
+    for c in cases:
+        m = c.meta
+        if c.expected is None:
+            continue
+        ctx.ev()
+        ctx.count("methods_" + label)
+        if c.src and len(c.tuples) >= 8:
+            ctx.sig(tuple(sorted(m.features)), m.shape_sig())
+        if isinstance(c.jvm, list):
+            ctx.count("jvm_calls_compared", len(c.jvm))
+            if any(x.startswith("!") for x in c.expected):
+                ctx.count("methods_with_expected_exception")
+        s = symptom_of(ctx, c)
+        if s is not None:
+            bad.append((c, s[0], s[1]))
+            ctx.count("failing_" + label)
+    return bad
+
+
+def report(ctx, c, mech, what, detail, extra=None):
+    m = c.meta
+    w = witness_of(c, {"pool": m.pool, "subject": m.subject, "shape": m.shape, "features": sorted(m.features), "generator_ast_as_java": G.to_java(m)})
+    w.update(detail)
+    if extra:
+        w.update(extra)
+    ctx.violation(mech, what, w)
+
+
+WHAT = {"wrong-value": "the compiled decompiler output returns a different value than the bytecode",
+        "exception-lost": "the bytecode throws ArithmeticException, the compiled decompiler output returns a value",
+        "exception-spurious": "the compiled decompiler output throws where the bytecode returns a value",
+        "jvm-does-not-terminate": "the compiled decompiler output does not terminate where the bytecode does"}
+
+
+def what_of(symptom):
+    if symptom.startswith("javac-"):
+        return "javac rejects the decompiler output (%s)" % symptom[6:]
+    if symptom.startswith("decompile-raises"):
+        return "the decompiler raises / prints no code for the method"
+    return WHAT.get(symptom, symptom)
+
+
+def phase_single(ctx, arg):
+    """P0 + P1: single-subject methods. Returns through ctx.extra['bad_features'] = {feature: {symptom: mechanism}}"""
+    rng = ctx.rng("c21-single", arg.get("salt", 0))
+    methods = G.p0_methods(rng) + G.p1_methods(rng)
+    tc = {}
+    cases = to_cases(methods, "S", rng, tc)
+    pipeline(ctx, cases)
+    bad = judge(ctx, cases, "single")
+    table = {}
+    for c, symptom, detail in bad:
+        m = c.meta
+        mech = subject_mechanism(m, symptom, c.src)
+        report(ctx, c, mech, what_of(symptom), detail)
+        table.setdefault(m.subject, {})[symptom] = mech
+    covered = sorted({m.subject for m in methods})
+    ctx.extra["bad_features"] = table
+    ctx.extra["single_subjects_covered"] = len(covered)
+    for c in cases:
+        if c.src and c.meta.pool == "P0" and len(ctx.samples) < 2:
+            ctx.sample({"pool": "P0", "subject": c.meta.subject, "bytecode": I.listing(c.units), "decompiled": c.src, "tuples": len(c.tuples)})
+    return table
